@@ -311,6 +311,17 @@ theorem hindex_get (P L ell mp m : Int) (hP : 0 ≤ P) (hl : 0 ≤ ell) (hL : el
   rw [hindex_wedge ell mp m P hl hP h1 h2 h3 h4]
   exact u_hindex_get P L ell mp m hP hl hL h1 h2 h3 h4
 
+/-- position of an arbitrary `(mp, m)`, `|mp|, |m| ≤ ell`: that of its wedge representative -/
+theorem hindex_fold_get (P L ell mp m : Int) (hP : 0 ≤ P) (hl : 0 < ell) (hL : ell ≤ L)
+    (h1 : -ell ≤ mp) (h2 : mp ≤ ell) (h3 : -ell ≤ m) (h4 : m ≤ ell)
+    (h5 : ((wedgeRep mp m).1.natAbs : Int) ≤ P) :
+    0 ≤ WignerHindex ell mp m (some P) ∧ WignerHindex ell mp m (some P) < WignerHsize P L ∧
+      (hRange P L)[(WignerHindex ell mp m (some P)).toNat]? = some (ell, (wedgeRep mp m).1, (wedgeRep mp m).2) := by
+  rw [hindex_fold_eq ell mp m P (by omega), u_hindex_min]
+  have ha := wedgeRep_abs mp m
+  have hb := wedgeRep_bound mp m ell h1 h2 h3 h4
+  exact u_hindex_get P L ell _ _ hP (by omega) hL (by omega) (by omega) ha hb
+
 -- closes one case of the if-ladder comparison
 set_option hygiene false in
 local macro "hsymm_close" : tactic =>
